@@ -2,8 +2,11 @@
 # run every claimed check (quick by default) on /repo and summarise
 tier=${1:-quick}
 cd "$(dirname "$0")"
+worst=0
 for p in $(python3 -c "import json; print(' '.join(c['property_id'] for c in json.load(open('MANIFEST.json'))['checks']))"); do
   out=$(./check $p --tier $tier 2>&1); rc=$?
   echo "$p rc=$rc $(echo "$out" | grep -c '^KNOWN-FINDING') known | $(echo "$out" | tail -1)"
   echo "$out" | grep "^VIOLATION"
+  [ $rc -gt $worst ] && worst=$rc
 done
+exit $worst
